@@ -76,7 +76,7 @@ theorem good_body_bytes (html : Bool) (items : List Item) (hg : ∀ i ∈ items,
 escapes, `\u` escapes of any class, surrogate pairs, lone surrogates, raw bytes) the buffer-mode
 string decoder, after any white space, returns exactly `sem items` and consumes exactly the literal. -/
 theorem decode_literal_exact (ws : List UInt8) (items : List Item) (rest : List UInt8)
-    (hws : ∀ b ∈ ws, Model.StrDec.isWs b = true) (hw : ∀ i ∈ items, i.wf false = true) :
+    (hws : ∀ b ∈ ws, Model.StrDec.isWs b = true) (hw : ∀ i ∈ items, i.wf true = true) :
     decodeString (ws ++ 34 :: (renderAll items ++ 34 :: rest)) =
       .ok (sem items) (ws.length + (renderAll items).length + 2) := by
   rw [decodeString_ws ws _ 0 hws, decodeString_literal items rest _ hw]
@@ -93,7 +93,7 @@ decoder reads back as the UTF-8-coerced input — for every byte string. -/
 theorem escape_decode_roundtrip (html : Bool) (s rest : List UInt8) :
     ∃ n, decodeString (escape html true s ++ rest) = .ok (coerceUtf8 s) n := by
   obtain ⟨items, he, hg, hs⟩ := escape_faithful_norm html s
-  have := decode_literal_exact [] items rest (by simp) (fun i hi => wf_strict_imp i (hg i hi).1)
+  have := decode_literal_exact [] items rest (by simp) (fun i hi => (hg i hi).1)
   simp only [List.nil_append, List.length_nil, Nat.zero_add] at this
   refine ⟨(renderAll items).length + 2, ?_⟩
   rw [he, ← hs, ← this]
